@@ -435,16 +435,18 @@ def run(R):
                                                                       "subscripts are 1-based" % [x[0].split("::")[-1] for x in names][:6], [c.loc()])
             else:
                 R.ok("C03.subscript", key, "values.get(subscript.checked_sub(1)..)", c.loc())
-    # ---- projection
-    sf = R.need_fn(SEL)
+    # ---- projection (select execute with its own helpers inlined; guards read as path facts)
+    sf = PR.view(P, R.need_fn(SEL), keep=r"DistinctValues::|ExpressionExecutionEngine::|^sqlgrep::model::|^sqlgrep::data_model::|ColumnProvider")
+    sfa = PR.facts(sf)
     keys = [c for c in sf.calls if c.func.get("trait") == "sqlgrep::execution::ColumnProvider" and c.func.get("trait_method") == "keys"]
     wild = [c for c in sf.calls if short(c.name).endswith("SelectStatement::is_wildcard_projection")]
     if keys and wild:
-        g = PR.bool_guard(sf, wild[0])
-        if g and PR.dominated_by_edge(sf, keys[0].bb, g[0], g[1]):
+        under = all(any(call is wild[0] and val is True for call, val in sfa.call_facts(k.bb)) for k in keys)
+        if under:
             R.ok("C03.project", "wildcard", "`*` iterates ColumnProvider::keys()", keys[0].loc())
         else:
-            R.violation("C03.project", "wildcard", "`*` is not expanded from ColumnProvider::keys()", [sf.loc()])
+            R.violation("C03.project", "wildcard", "`*` is not expanded from ColumnProvider::keys() exactly under is_wildcard_projection()",
+                        [keys[0].loc()])
     else:
         R.violation("C03.project", "wildcard|shape", "select execute: no keys() expansion under is_wildcard_projection()", [sf.loc()])
     pushes = [c for c in sf.calls if short(c.name) == "alloc::vec::Vec::push" and (c.func.get("res_targs") or c.targs)[:1] == [V]]
@@ -454,7 +456,6 @@ def run(R):
         if not lp:
             okp = False
             continue
-        nx = [c for c in sf.calls if c.bb == lp[0] or (c.bb in lp[1] and short(c.name).endswith("Iterator>::next"))]
         nxt = [c for c in sf.calls if c.bb in lp[1] and short(c.name).endswith("Iterator>::next")]
         if not nxt:
             okp = False
@@ -463,8 +464,24 @@ def run(R):
         r = count_range(sf, g[1], {lp[0]}, {pc.bb}) if g else None
         if r != (1, 1):
             okp = False
-    if pushes and okp:
-        R.ok("C03.project", "one-value-per-projection", "exactly one push per projection / column on every path", pushes[0].loc())
+    # the same written with adapters: values collected from `projections.iter().map(|p| evaluate(p))` - one evaluate per element,
+    # no filtering / limiting adapter in the iterator type
+    collects = []
+    for c in sf.calls:
+        if re.search(r"Iterator::collect$|::from_iter$", short(c.name)):
+            ty = " ".join(c.targs + (c.func.get("res_targs") or []))
+            if V in ty and "core::slice::iter::Iter<" in ty and "adapters::map::Map<" in ty:
+                bad_ad = re.search(r"adapters::(filter|filter_map|take|skip|step_by|take_while|skip_while|rev|chain|flatten|peekable)::", ty)
+                evals = 0
+                for ck in (c.func.get("closure_args") or []) + [k for c2 in sf.calls if c2.bb in sf.reach and id(c2) != id(c)
+                                                                 for k in (c2.func.get("closure_args") or []) if "map" in short(c2.name)]:
+                    cf = P.fns.get(ck)
+                    if cf is not None:
+                        evals = max(evals, len([1 for c3 in cf.calls if short(c3.name) == EVAL]))
+                collects.append((c, bad_ad is None and evals == 1))
+    if (pushes or collects) and okp and all(ok_ for _, ok_ in collects):
+        R.ok("C03.project", "one-value-per-projection", "exactly one value per projection / column on every path (%d push loops, %d collects)"
+             % (len(pushes), len(collects)), (pushes[0] if pushes else collects[0][0]).loc())
     else:
         R.violation("C03.project", "one-value-per-projection", "a projection can be skipped or emitted twice on some path", [sf.loc()])
     rows = [c for c in sf.calls if short(c.name) == "sqlgrep::data_model::Row::new"]
